@@ -15,7 +15,7 @@ from .c16 import SIMPLE, TASKPOOL
 
 NB = 500
 FUNCS = ["quick", "quick", "gated", "gated", "boom", "not_async", "alt", "alt", "decorated", "pkg"]
-GROUPS = ["G", "H", "None", "True", "0", "@home", "@", "apply-gated-group-0", "map-quick-group-0", "start-group-0", "start-group-1", "nope", "g" * 300, "Ünï-çødé", "a=b", "x,y"]
+GROUPS = ["G", "H", "None", "True", "0", "@home", "@", '"G"', "'H'", '"', "''", "'a", 'b"', "G\\", "apply-gated-group-0", "map-quick-group-0", "start-group-0", "start-group-1", "nope", "g" * 300, "Ünï-çødé", "a=b", "x,y"]
 SHORT = {  # documented short options: first letter, upper case if taken (ControlParser.add_function_arg)
     "apply": {"args": "-a", "kwargs": "-k", "num": "-n", "group_name": "-g", "end_callback": "-e", "cancel_callback": "-c"},
     "map": {"num_concurrent": "-n", "group_name": "-g", "end_callback": "-e", "cancel_callback": "-c"},
@@ -58,7 +58,7 @@ def gen_value(d: D, cmd: str, pname: str) -> Any:
     if pname == "task_ids":
         return ["ints", [d.pick([0, 0, 1, 1, 2, 3, 4, 7, -1]) for _ in range(d.i(0, 3))]]
     if pname == "msg":
-        return ["str", d.pick(["bye", "x", "stop-it", "a\tb", "x\u00a0y", "", "", "None", "0", "@bye"])]
+        return ["str", d.pick(["bye", "x", "stop-it", "a\tb", "x\u00a0y", "", "", "None", "0", "@bye", "'bye'", '"x"', "'", '""'])]
     return ["int", d.i(0, 3)]
 
 
